@@ -1,0 +1,23 @@
+//go:build verif
+
+package chpool
+
+import "sync/atomic"
+
+// Verification hook (build tag "verif" only), see ch.VerifSetHook.
+var verifHook atomic.Pointer[func(name string)]
+
+// VerifSetHook installs (or, with nil, removes) the hook function.
+func VerifSetHook(f func(name string)) {
+	if f == nil {
+		verifHook.Store(nil)
+		return
+	}
+	verifHook.Store(&f)
+}
+
+func verifPoint(name string) {
+	if f := verifHook.Load(); f != nil {
+		(*f)(name)
+	}
+}
